@@ -12,6 +12,8 @@ label paths of pkg/model), for ALL histories, names, prefixes and every unicode 
 * `C08_label_frame`: set/delete change no metadata key (repos, bundles) and no other label;
 * `C08_list_exact`, `C08_list_eq_spec`: prefix-filtered listing;
 * `C08_accepted_resolvable`: a name the API accepts is afterwards resolved and listed;
+* `C08_delete_bundle_labels`, `C08_no_label_on_deleted_bundle`: a successful `DeleteBundle` removes exactly
+  the labels last set to that bundle, whatever their number;
 * `C08_neg_…`: what goes wrong without name validation, and for prefixes `<name>/label.yaml`.
 -/
 namespace Labels
@@ -1055,5 +1057,144 @@ theorem C08_list_race_sound (s0 s1 : St) (r p : Str) (l : List (Str × Str))
 
 /-- without a race it is the ordinary listing -/
 theorem C08_list_race_same (s : St) (r p : Str) : listLabelsRace s s r p = listLabels s r p := rfl
+
+/-! ## `DeleteBundle` and the labels of the deleted bundle -/
+
+theorem deleteLabelsOf_spec (r : Str) (ns : List Str) :
+    ∀ s s1, Inv s → deleteLabelsOf s r ns = (s1, .ok) →
+      Inv s1 ∧ s1.md = s.md ∧
+      ∀ k, get k s1.vmd = if k ∈ ns.map (labelKey r) then none else get k s.vmd := by
+  induction ns with
+  | nil =>
+    intro s s1 hI h
+    simp only [deleteLabelsOf, Prod.mk.injEq, and_true] at h
+    subst h
+    exact ⟨hI, rfl, by simp⟩
+  | cons n ns ih =>
+    intro s s1 hI h
+    simp only [deleteLabelsOf] at h
+    have hI2 := inv_deleteLabel s r n hI
+    generalize hd : deleteLabel s r n = res at h hI2
+    obtain ⟨s2, o⟩ := res
+    cases o with
+    | ok =>
+      simp only at h
+      obtain ⟨i1, i2, i3⟩ := ih s2 s1 hI2 h
+      -- what the successful deletion did
+      have hs2 : s2.md = s.md ∧ s2.vmd = del (labelKey r n) s.vmd := by
+        unfold deleteLabel at hd
+        split at hd
+        · cases hd
+        · split at hd
+          · cases hd
+          · cases hd; exact ⟨rfl, rfl⟩
+      refine ⟨i1, i2.trans hs2.1, ?_⟩
+      intro k
+      rw [i3 k, hs2.2]
+      simp only [List.map_cons, List.mem_cons]
+      by_cases hk : k = labelKey r n
+      · subst hk
+        simp [get_del_same]
+      · rw [get_del_ne _ _ _ hk]
+        simp [hk]
+    | _ => simp at h
+
+/-- **`DeleteBundle` takes exactly the labels of the bundle with it**: when it succeeds, in every
+    repository every label reads as before, except the labels of `r` that were last set to `b`,
+    which are gone; the repositories are the same. No bound on the number of labels. -/
+theorem C08_delete_bundle_labels (s s' : St) (hI : Inv s) (r b : Str)
+    (h : deleteBundle s r b = (s', .ok)) :
+    Inv s' ∧ (∀ r', (abs s').repos r' = (abs s).repos r') ∧
+    ∀ r' n', (abs s').labels r' n' =
+      if r' = r ∧ (abs s).labels r n' = some b then none else (abs s).labels r' n' := by
+  unfold deleteBundle at h
+  split at h
+  · cases h
+  rename_i hx
+  have hx : repoExists s r = true := by simpa using hx
+  have hr : noSlash r := hI.repos r hx
+  split at h
+  · cases h
+  have hl := C08_list_exact s hI r [] (by decide) (fun _ => true)
+  have hx2 : (abs s).repos r = true := hx
+  simp only [specOut, hx2, if_true] at hl
+  obtain ⟨l, hl1, _, hl3⟩ := hl
+  rw [hl1] at h
+  simp only at h
+  generalize hd : deleteLabelsOf s r ((l.filter fun p => p.2 == b).map (·.1)) = res at h
+  obtain ⟨s1, o⟩ := res
+  cases o with
+  | ok =>
+    simp only [Prod.mk.injEq, and_true] at h
+    subst h
+    obtain ⟨i1, i2, i3⟩ := deleteLabelsOf_spec r _ s s1 hI hd
+    have hmem : ∀ n, n ∈ (l.filter fun p => p.2 == b).map (·.1) ↔ (abs s).labels r n = some b := by
+      intro n
+      simp only [List.mem_map, List.mem_filter, beq_iff_eq]
+      constructor
+      · rintro ⟨⟨n0, b0⟩, ⟨hm, hb⟩, rfl⟩
+        simp only at hb; subst hb
+        exact ((hl3 n0 b0).1 hm).1
+      · intro hn
+        exact ⟨(n, b), ⟨(hl3 n b).2 ⟨hn, List.nil_prefix⟩, rfl⟩, rfl⟩
+    have hrepos : ∀ r', repoExists ⟨del (bundleKey r b) s1.md, s1.vmd⟩ r' = repoExists s r' := by
+      intro r'
+      simp only [repoExists, has]
+      rw [get_del_ne _ _ _ (fun e => bundleKey_ne_repoKey r b r' e.symm), i2]
+    refine ⟨⟨i1.distinct, i1.wf, fun r' hr' => hI.repos r' ((hrepos r').symm ▸ hr')⟩, hrepos, ?_⟩
+    intro r' n'
+    by_cases hs : 47 ∈ r'
+    · have hne : r' ≠ r := fun e => hr (e ▸ hs)
+      simp [abs, hs, hne]
+    · rw [abs_labels_of_noSlash _ r' n' hs, abs_labels_of_noSlash s r' n' hs]
+      simp only
+      rw [i3 (labelKey r' n')]
+      have hiff : labelKey r' n' ∈ ((l.filter fun p => p.2 == b).map (·.1)).map (labelKey r) ↔
+          (r' = r ∧ (abs s).labels r n' = some b) := by
+        rw [List.mem_map]
+        constructor
+        · rintro ⟨n, hn, he⟩
+          obtain ⟨e1, e2⟩ := labelKey_inj r n r' n' hr hs he
+          subst e1; subst e2
+          exact ⟨rfl, (hmem n).1 hn⟩
+        · rintro ⟨e1, e2⟩
+          subst e1
+          exact ⟨n', (hmem n').2 e2, rfl⟩
+      by_cases hc : r' = r ∧ (abs s).labels r n' = some b
+      · rw [if_pos (hiff.2 hc), if_pos hc]; rfl
+      · rw [if_neg (fun hh => hc (hiff.1 hh)), if_neg hc]
+  | _ => simp at h
+
+/-- readable corollary: after a successful `DeleteBundle`, no label of the repository resolves to
+    the deleted bundle -/
+theorem C08_no_label_on_deleted_bundle (s s' : St) (hI : Inv s) (r b n : Str)
+    (h : deleteBundle s r b = (s', .ok)) : getLabel s' r n ≠ .bundle b := by
+  obtain ⟨hI', hrep, hlab⟩ := C08_delete_bundle_labels s s' hI r b h
+  have hg := refines_get (fun _ => true) s' r n hI'
+  simp only [specOut] at hg
+  rw [hg]
+  split
+  · simp
+  · have := hlab r n
+    by_cases hc : (abs s).labels r n = some b
+    · rw [if_pos ⟨rfl, hc⟩] at this; rw [this]; simp
+    · rw [if_neg (fun hh => hc hh.2)] at this; rw [this]
+      split
+      · rename_i b' hb'; intro he; cases he; exact hc hb'
+      · simp
+
+/-- non-vacuity: a repository with two bundles and three labels; deleting bundle "1" succeeds, takes
+    labels "a" and "c" with it and leaves "b" on bundle "2" (and the hypotheses of the theorem hold:
+    the state is reachable) -/
+def exDelOps : List Op :=
+  [.mkRepo [114], .mkBundle [114] [49], .mkBundle [114] [50], .set [114] [97] [49], .set [114] [98] [50], .set [114] [99] [49]]
+
+example :
+    let s := run (fun _ => false) St.empty exDelOps
+    (deleteBundle s [114] [49]).2 = .ok ∧
+    listLabels (deleteBundle s [114] [49]).1 [114] [] = .labels [([98], [50])] ∧
+    (deleteBundle (deleteBundle s [114] [49]).1 [114] [49]).2 = .err := by decide
+
+example : Inv (run (fun _ => false) St.empty exDelOps) := C08_reachable_inv _ _
 
 end Labels
